@@ -785,6 +785,51 @@ class LinkedGen:
                 out.append(op)
         return out
 
+    @staticmethod
+    def header_reuse_program(k, first, prime, n1=3, n2=4, prologue=True, keep=False):
+        """A list on one allocator triple is destroyed and a list on the OTHER triple is created at once in the same slot,
+        with no allocation in between, so that the allocator hands out the same header address again; then every
+        builder derives from the new list and the derived lists are made to allocate nodes (C14: derived containers
+        use the parent's triple - the parent's *current* one, not one remembered for that address).
+        `prologue`: eight create/destroy pairs first - glibc's calloc does not take blocks from the per-thread cache,
+        so a freed header is only handed out again once the cache bin of that size class is full (7 entries)."""
+        o = f" o={k}" if k else ""
+        other = "new_default" if first == "new" else "new"
+        j = 1 if k != 1 else 2
+        p = 3
+        out = []
+        if prologue:
+            for _ in range(8):
+                out += [f"{first} o={p}", f"drop o={p}"]
+        out.append(first + o)
+        out += [f"add {v}{o}" for v in (11, 12, 13, 14, 15)[:n1]]
+        if prime:
+            out += [f"{prime} to={j}{o}", f"add 19 o={j}", f"drop o={j}"]
+        out += [f"drop{o}", other + o]
+        out += [f"add {v}{o}" for v in (22, 23, 24, 26, 28)[:n2]]
+        for b in (f"mk_copy_shallow to={j}", f"mk_sub b=0 e={max(n2 - 2, 0)} to={j}", f"mk_filter to={j}", f"mk_copy_deep to={j}"):
+            out += [b + o, f"add 31 o={j}", f"add_first 32 o={j}", "observe", f"remove_first o={j}", f"drop o={j}"]
+        if not keep:
+            out.append(f"drop{o}")
+        return out
+
+    def header_reuse_family(self, rng, sim):
+        """random instance of `header_reuse_program`; afterwards the shadow treats the session as mixed
+        (no splice, no fail=)"""
+        k = rng.choice([0, 0, 1, 2])
+        out = []
+        for x in list(sim.live()):
+            if x in (k, 1 if k != 1 else 2, 3):
+                del sim.s[x]
+                out.append(f"drop o={x}")
+        first = rng.choice(["new", "new_default"])
+        prime = rng.choice([None, "mk_copy_shallow", "mk_copy_shallow", "mk_copy_deep", "mk_filter", f"mk_sub b=0 e=1"])
+        n2 = rng.randint(2, 5)
+        out += self.header_reuse_program(k, first, prime, n1=rng.randint(2, 5), n2=n2, prologue=rng.random() < 0.6, keep=True)
+        sim.s[k] = [22, 23, 24, 26, 28][:n2]
+        sim.mix = True
+        return out
+
     # ------------------------------------------------------------------ random histories
     def random(self, rng, n, tier, focus=None):
         out = []
@@ -846,6 +891,9 @@ class LinkedGen:
                 v = val(rng); sim.s[1].append(v); ops.append(f"add {v} o=1")
         length = rng.randint(1, 50)
         allf = focus in ("all", "refuse")
+        if focus in ("derived", "all") and rng.random() < 0.22:
+            # early in the history: derive from a list created at the address of a list on the other triple
+            ops.extend(self.header_reuse_family(rng, sim))
         if (focus is None or allf) and rng.random() < 0.15:
             # a history that consists of two-list programs around the bulk operations
             for _ in range(rng.randint(1, 3)):
@@ -1026,6 +1074,10 @@ class LinkedGen:
                     out.append([c0, "add 1", "add 2", f"{c1} o=1", "add 5 o=1", "add 6 o=1", "add 9 o=1", "zit_new o=0 o2=1"] + prog +
                                ["add_all from=1", "add_all_at from=0 idx=1 o=1", "remove_last", "remove_first o=1", "destroy"])
         if focus == "derived" or allf:
+            for first in ("new", "new_default"):
+                for k in (0, 1):
+                    for prime in (None, "mk_copy_shallow", "mk_sub b=0 e=1"):
+                        out.append(self.header_reuse_program(k, first, prime) + ["destroy"])
             for n in range(0, 5):
                 base = build([2, 3, 4, 6][:n])
                 follow = ["add 50", "add_first 51 o=1", "remove_first", "remove_last o=1", "drop o=1", "add 52", "destroy"]
